@@ -19,6 +19,10 @@
 
 
 
+#include <xercesc/util/OutOfMemoryException.hpp>
+
+
+
 #include "xercesc/sax/ErrorHandler.hpp"
 #include "xercesc/sax/SAXParseException.hpp"
 
@@ -212,6 +216,12 @@ parseDoc(
                     uri,
                     base,
                     &theErrorHandler);
+    }
+    catch(const xercesc::OutOfMemoryException&)
+    {
+        // Running out of memory is not a problem with the document:
+        // it must reach the caller.
+        throw;
     }
     catch(...)
     {
